@@ -88,7 +88,7 @@ func genIsolationPlan(seed uint64, tier string) *Plan {
 		size := 0
 		switch g.intn(6) {
 		case 0:
-			size = g.rng(0, 40)
+			size = g.pick2(0, 0, g.rng(0, 40)) // often no body at all
 		case 1, 2:
 			size = g.rng(40, 800)
 		case 3:
@@ -115,7 +115,9 @@ func genIsolationPlan(seed uint64, tier string) *Plan {
 			case 2:
 				cut = hdrEnd - 1 - g.intn(3) // just before the blank line ends
 			default:
-				if bodyLen > 1 {
+				if bodyLen > 0 && g.chance(25) {
+					cut = len(data) - 1 // exactly the last byte of the body is missing
+				} else if bodyLen > 1 {
 					cut = hdrEnd + g.intn(bodyLen-1) + 0 // inside the body
 					if cut == hdrEnd && g.chance(50) {
 						cut++
